@@ -127,7 +127,7 @@ def run_tlc(module, cfg_path, name, workers=NPROC, timeout=1500, simulate=None, 
     shutil.rmtree(meta, ignore_errors=True)
     os.makedirs(meta, exist_ok=True)
     out_path = os.path.join(BUILD, name + ".tlc.out")
-    cmd = ["timeout", str(timeout), "java", "-XX:+UseParallelGC", "-Xmx" + heap, "-cp", TLC_CP,
+    cmd = ["timeout", str(timeout), "java", "-XX:+UseParallelGC", "-Xmx" + heap, "-Djava.io.tmpdir=" + meta, "-cp", TLC_CP,
            "tlc2.TLC", "-workers", str(workers), "-metadir", meta, "-config", cfg_path]
     if simulate:
         cmd += ["-simulate", "num=%d" % simulate]
